@@ -6,6 +6,7 @@
 import VerdeModel.Gen.Kernels
 import VerdeModel.Gen.Coords
 import VerdeModel.Gen.Trend
+import VerdeModel.Gen.Utils
 open Verde
 
 def fl (x : Float) : String := floatStr x
@@ -80,8 +81,20 @@ def coords2 : IO Unit := do
         let m := match shapeToSpacing r (nn, ne) px with | some (a, b) => s!"{ratS a} {ratS b}" | none => "err"
         IO.println s!"shapeToSpacing {ratS r.w} {ratS r.e} {ratS r.s} {ratS r.n} {nn} {ne} {px} | {ratS g.1} {ratS g.2} | {m}"
 
+def natsS (l : List Nat) : String := if l.isEmpty then "-" else ",".intercalate (l.map toString)
+
+def utils : IO Unit := do
+  let pools : List (List Nat) := [[10, 1, 1], [1, 1, 10], [5, 6, 4, 6, 8, 1, 2, 6, 3, 3], [0, 1, 2, 3, 4, 5, 6, 7, 8, 9], [3, 3, 3, 3],
+    [1], [2, 2], [1, 2, 3], [7, 1, 1, 1, 7], [4, 0, 0, 4], [1, 1, 1, 1, 1, 1, 1], [9, 1, 9, 1, 9], [2, 5, 1, 1, 5, 2], [6, 6], [1, 9]]
+  for sizes in pools do
+    for parts in [1, 2, 3, 4, 5, 6, 8] do
+      let g := match Gen.partitionBySum sizes parts with | .ok l => natsS l | .error _ => "err"
+      let m := match partitionBySum sizes parts with | .ok l => natsS l | .error _ => "err"
+      IO.println s!"partitionBySum {natsS sizes} {parts} | {g} | {m}"
+
 def main (args : List String) : IO Unit :=
   match args with
   | ["kernels"] => do kernels; trend
   | ["coords"] => do coords; coords2
+  | ["utils"] => utils
   | _ => IO.println "usage: GenEval kernels|coords"
